@@ -5,6 +5,7 @@ import (
 	"flag"
 	"fmt"
 	"os"
+	"sort"
 	"strconv"
 	"strings"
 
@@ -24,7 +25,7 @@ func init() {
 	lib.Register(&c11{base{
 		id: "C11", level: "fault_enumeration",
 		technique: "runtime fault injection + self-differential monitor: a caller-supplied format checker panics at its k-th invocation, for EVERY k from 1 to the number of invocations K of the panic-free run of the workload (and the documented invalid-schema panic is raised at every depth the workload can place a dangling $ref); the caller recovers; then a follow-up history runs and every outcome is compared with its fresh-process reference while the pool hooks run the ownership automaton (double redeem, borrow of an owned object) and poison redeemed objects",
-		rule: "one case = one workload (12-24 calls through AgainstSchema, recycling schema / parameter / header validators and Spec, whose schemas, items and parameter defaults carry the panicking format under object / array / allOf / anyOf / oneOf / not / additionalProperties / dependencies parents, plus a long-lived non-recycling validator which is used across the panic and must afterwards still answer like a freshly built one) x every injection point k=1..K x a follow-up history of 60 calls (+ a whole-specification validation every 6th k); K is measured per workload and reported; distinct = FNV-64 of workload + k (each injection point is its own case: a workload with K checker invocations contributes K+1 distinct cases); non-trivial = the injected panic actually unwound a validation (was recovered by the caller) and the follow-up ran",
+		rule:      "one case = one workload (12-24 calls through AgainstSchema, recycling schema / parameter / header validators and Spec, whose schemas, items and parameter defaults carry the panicking format under object / array / allOf / anyOf / oneOf / not / additionalProperties / dependencies parents, plus a long-lived non-recycling validator which is used across the panic and must afterwards still answer like a freshly built one) x every injection point k=1..K x a follow-up history of 60 calls (+ a whole-specification validation every 6th k); K is measured per workload and reported; distinct = FNV-64 of workload + k (each injection point is its own case: a workload with K checker invocations contributes K+1 distinct cases); non-trivial = the injected panic actually unwound a validation (was recovered by the caller) and the follow-up ran",
 		assumptions: []string{
 			"fault model: panics raised by the format checker or by the documented invalid-schema check, recovered by the caller; one panic per history",
 			"fresh-process, non-recycling executions are the oracle for the follow-up calls",
@@ -102,7 +103,9 @@ func (p *c11) specDocs(r *lib.Rand, n int) [][]byte {
 	return out
 }
 
-func (p *c11) workload(seed int64, idx int, b *bomb) (wl, follow []*hist.Op) {
+// workload returns the calls during which the panic is injected, the follow-up calls, and for every follow-up call
+// the index of the workload call it was derived from (-1: independent).
+func (p *c11) workload(seed int64, idx int, b *bomb) (wl, follow []*hist.Op, origin []int) {
 	r := lib.NewRand(seed, "C11", idx)
 	docs := p.specDocs(r.Fork(), 2)
 	n := r.Range(12, 24)
@@ -110,9 +113,111 @@ func (p *c11) workload(seed int64, idx int, b *bomb) (wl, follow []*hist.Op) {
 	// make sure the checker is reached at least once, directly under the root
 	wl = append(wl, &hist.Op{Kind: "against", Tag: fmt.Sprintf("T%dQ", idx*1000+400), Carrier: "float64", Formats: b.reg,
 		Schema: []byte(`{"type":"string","format":"boom"}`), Inst: []byte(`"ab"`)})
+	// ... and below objects which are mid-way through their properties when the checker panics: members with a
+	// default which the instance omits (the validators keep per-call notes about those) next to members which
+	// reach the checker, at the root, in a nested object and in array elements
+	wl = append(wl, &hist.Op{Kind: []string{"against", "schema-recycled"}[idx%2], Tag: fmt.Sprintf("T%dQ", idx*1000+401), Carrier: "float64", Formats: b.reg,
+		Schema: []byte(`{"type":"object","properties":{"id":{"type":"string","default":"none"},"n":{"type":"integer","default":1},"f1":{"type":"string","format":"boom"},"f2":{"type":"string","format":"boom"},
+ "sub":{"type":"object","properties":{"owner":{"default":"x"},"a":{"default":2},"g1":{"type":"string","format":"boom"},"g2":{"type":"string","format":"boom"}}},
+ "list":{"type":"array","items":{"type":"object","required":["k"],"properties":{"k":{"default":0},"b":{"default":true},"h":{"type":"string","format":"boom"}}}}}}`),
+		Inst: []byte(`{"f1":"ab","f2":"cd","sub":{"g1":"ef","g2":"gh"},"list":[{"h":"ij"},{"h":"kl"}]}`)})
 	follow = hist.Gen(r, 60, idx*1000+500, hist.Options{})
 	follow = append(follow, hist.Gen(r, 1, idx*1000+900, hist.Options{SpecDocs: hist.SpecDocs(r.Fork(), 2), SpecEvery: 1})...)
+	derived, from := derivedFollowUps(wl, idx*1000+950, b.reg)
+	origin = make([]int, len(follow), len(follow)+len(derived))
+	for i := range origin {
+		origin[i] = -1
+	}
+	follow, origin = append(follow, derived...), append(origin, from...)
 	return
+}
+
+// derivedFollowUps builds follow-up calls out of the workload itself: state which an aborted validation leaves
+// behind is most likely keyed by what that validation saw (member names, paths, constraints), so the calls
+// which come after the recovered panic re-use the names and shapes of the calls which may have been aborted:
+// the same call again, and a "mirror" schema which demands (required, no default) the members for which the
+// workload schema declares a default, under anyOf / allOf alternatives and a nested object, on empty objects.
+func derivedFollowUps(wl []*hist.Op, base int, reg strfmt.Registry) (out []*hist.Op, origin []int) {
+	n := 0
+	for wi, op := range wl {
+		if (op.Kind != "against" && op.Kind != "schema-recycled") || len(op.Schema) == 0 || n >= 16 {
+			continue
+		}
+		var doc any
+		if json.Unmarshal(op.Schema, &doc) != nil {
+			continue
+		}
+		names := map[string]bool{}
+		var walk func(v any)
+		walk = func(v any) {
+			switch x := v.(type) {
+			case map[string]any:
+				if props, ok := x["properties"].(map[string]any); ok {
+					for k, ps := range props {
+						if pm, ok := ps.(map[string]any); ok {
+							if _, has := pm["default"]; has {
+								names[k] = true
+							}
+						}
+					}
+				}
+				for _, e := range x {
+					walk(e)
+				}
+			case []any:
+				for _, e := range x {
+					walk(e)
+				}
+			}
+		}
+		walk(doc)
+		again := *op
+		again.Tag = fmt.Sprintf("T%dQ", base+n)
+		again.Formats = reg
+		n++
+		if len(names) == 0 {
+			out = append(out, &again)
+			origin = append(origin, wi)
+			continue
+		}
+		var list []any
+		for _, k := range sortedKeysBool(names) {
+			list = append(list, k)
+		}
+		// every object validator of the mirror is sensitive to a left-over name, whichever of them borrows the
+		// object the aborted validation left behind: the root and four nested objects demand every name (each at
+		// its own path, so the messages are distinct), and one alternative per name sits under anyOf and allOf
+		tag := fmt.Sprintf("T%dQ", base+n)
+		req := func() map[string]any { return map[string]any{"type": "object", "required": list} }
+		var alts []any
+		for _, k := range list {
+			alts = append(alts, map[string]any{"required": []any{k}})
+		}
+		if len(alts) == 1 {
+			alts = append(alts, map[string]any{"required": []any{list[0]}}) // the same alternative twice: either may borrow the object
+		}
+		mirror := map[string]any{"type": "object", "required": list, "title": tag, "properties": map[string]any{
+			"mirror0": req(), "mirror1": req(), "mirror2": req(), "mirror3": req(),
+			"mirror4": map[string]any{"anyOf": alts}, "mirror5": map[string]any{"allOf": alts}, "mirror6": map[string]any{"oneOf": alts},
+		}}
+		out = append(out, &hist.Op{Kind: op.Kind, Tag: tag, Carrier: "float64", Formats: reg,
+			Schema: gen.JSON(mirror), Inst: []byte(`{"mirror0":{},"mirror1":{},"mirror2":{},"mirror3":{},"mirror4":{},"mirror5":{},"mirror6":{}}`)})
+		origin = append(origin, wi)
+		// the same call again comes after its mirror (it would consume what was left behind without showing it)
+		out = append(out, &again)
+		origin = append(origin, wi)
+		n++
+	}
+	return out, origin
+}
+
+func sortedKeysBool(m map[string]bool) []string {
+	out := make([]string, 0, len(m))
+	for k := range m {
+		out = append(out, k)
+	}
+	sort.Strings(out)
+	return out
 }
 
 // Aux: references of the follow-up history, computed in a fresh process through the non-recycling API.
@@ -121,7 +226,7 @@ func (p *c11) Aux(args []string) int {
 	seed := fs.Int64("seed", 1, "")
 	idx := fs.Int("idx", 0, "")
 	_ = fs.Parse(args)
-	_, follow := p.workload(*seed, *idx, newBomb())
+	_, follow, _ := p.workload(*seed, *idx, newBomb())
 	var out []sut.Outcome
 	for _, op := range follow {
 		out = append(out, op.Run(false))
@@ -135,7 +240,7 @@ func (p *c11) Run(w *lib.Worker, idx int, r *lib.Rand) lib.Case {
 	sut.ResetPoolsOnPanic = false
 	defer func() { sut.ResetPoolsOnPanic = true }()
 	b := newBomb()
-	wl, follow := p.workload(w.Seed, idx, b)
+	wl, follow, origin := p.workload(w.Seed, idx, b)
 	c := lib.Case{Nums: map[string]int64{}}
 	out, err := lib.RunAux("C11", "-seed", strconv.FormatInt(w.Seed, 10), "-idx", strconv.Itoa(idx))
 	var ref []sut.Outcome
@@ -237,8 +342,21 @@ func (p *c11) Run(w *lib.Worker, idx int, r *lib.Rand) lib.Case {
 		if !llPanicked {
 			c.Tags = append(c.Tags, "unwound:"+wl[panicAt].Kind)
 		}
-		// the caller recovered; every later validation must behave as in a fresh process
-		for i, op := range follow {
+		// the caller recovered; every later validation must behave as in a fresh process; the calls derived from
+		// the aborted call come first (what an aborted validation leaves behind is consumed by the next borrower)
+		order := make([]int, 0, len(follow))
+		for i := range follow {
+			if origin[i] == panicAt {
+				order = append(order, i)
+			}
+		}
+		for i := range follow {
+			if origin[i] != panicAt {
+				order = append(order, i)
+			}
+		}
+		for _, i := range order {
+			op := follow[i]
 			if ref[i].Panic != "" {
 				continue
 			}
